@@ -32,7 +32,9 @@ type c15Handler struct {
 type c15Case struct {
 	Cause    string       `json:"cause"` // closer | fin | rst | server_ctx
 	Handlers []c15Handler `json:"handlers"`
-	Empty    bool         `json:"empty,omitempty"` // the peer sent an empty data frame some time before the connection ends
+	Empty    bool         `json:"empty,omitempty"`   // the peer sent an empty data frame some time before the connection ends
+	Partial  bool         `json:"partial,omitempty"` // the peer has sent the first fragment of a message and never completes it
+	Stall    bool         `json:"stall,omitempty"`   // the link stops moving data while a large response is being written (server pings every 40 ms)
 }
 
 var labelRe = regexp.MustCompile(`(?m)^(\d+) @.*\n# labels: (\{.*\})`)
@@ -77,7 +79,11 @@ func runC15(c c15Case) (*Violation, string) {
 		}
 	}
 	base, _ := labelledGoroutines("wsserver")
-	rig, err := NewRig(RigOpts{Reverse: needRev})
+	opts := RigOpts{Reverse: needRev}
+	if c.Stall {
+		opts.ServerPing = 40 * time.Millisecond
+	}
+	rig, err := NewRig(opts)
 	if err != nil {
 		return nil, "rig"
 	}
@@ -144,6 +150,28 @@ func runC15(c c15Case) (*Violation, string) {
 			return violf("empty-frame-wedges-connection", "after an empty data frame from the peer a call on the same connection failed: %v", err), ""
 		}
 	}
+	if c.Partial && !c.Stall {
+		rig.Proxy.InjectPartialFrame()
+		time.Sleep(3 * time.Millisecond)
+	}
+	if c.Stall {
+		// a handler starts writing 8 MiB while nothing is read on the other side; the server's pinger then queues
+		// up behind that write
+		big := rig.Go(cl, "call", rig.Tok("bigwrite"), Plan{Gate: true, Size: 8 << 20})
+		rig.W.WaitStarted(big.Tok, 2*time.Second)
+		rig.Proxy.CutAll("stall")
+		rig.W.Release(big.Tok)
+		hsl = append(hsl, &hs{c15Handler{Kind: "late", Size: 8 << 20}, big})
+		// encoding 8 MiB takes a moment: wait until the write is under way and the pinger has queued up behind it
+		for deadline := time.Now().Add(2 * time.Second); time.Now().Before(deadline); {
+			_, prof := labelledGoroutines("wsserver")
+			if strings.Contains(prof, "nextWriter") {
+				break
+			}
+			time.Sleep(10 * time.Millisecond)
+		}
+		time.Sleep(150 * time.Millisecond)
+	}
 	switch c.Cause {
 	case "closer":
 		if !cl.Close(5 * time.Second) {
@@ -165,6 +193,9 @@ func runC15(c c15Case) (*Violation, string) {
 	deadline := time.Now().Add(3 * time.Second)
 	for _, h := range hsl {
 		ctx := rig.W.Ctx(h.p.Tok)
+		if ctx == nil {
+			continue // never reached the server
+		}
 		for ctx.Err() == nil && time.Now().Before(deadline) {
 			time.Sleep(time.Millisecond)
 		}
@@ -228,6 +259,12 @@ func c15NT(c c15Case) (bool, []string) {
 	if c.Empty {
 		cl = append(cl, "empty_frame_before_end")
 	}
+	if c.Partial {
+		cl = append(cl, "partial_message_pending")
+	}
+	if c.Stall {
+		cl = append(cl, "stalled_write_at_end")
+	}
 	for _, h := range c.Handlers {
 		cl = append(cl, "handler_"+h.Kind)
 		if h.Size > 4096 {
@@ -246,7 +283,7 @@ func TestC15(t *testing.T) {
 	rec := NewRec("C15", c15Rule)
 	defer rec.Finish(t)
 	rec.EnableJournal()
-	rec.RequireClass("empty_frame_before_end", "cause_closer", "cause_fin", "cause_rst", "cause_server_ctx", "handler_watch", "handler_late", "handler_notify", "handler_stream", "handler_reverse", "large_response")
+	rec.RequireClass("partial_message_pending", "stalled_write_at_end", "empty_frame_before_end", "cause_closer", "cause_fin", "cause_rst", "cause_server_ctx", "handler_watch", "handler_late", "handler_notify", "handler_stream", "handler_reverse", "large_response")
 	known := rec.IsKnown("lazywriter-leak")
 	run := func(ft failer, c c15Case) {
 		if known {
@@ -290,6 +327,10 @@ func TestC15(t *testing.T) {
 		sh, nsh := shard()
 		k := 0
 		for _, cause := range c15Causes {
+			run(t, c15Case{Cause: cause, Handlers: []c15Handler{{Kind: "watch"}, {Kind: "stream"}}, Partial: true})
+			if cause != "closer" {
+				run(t, c15Case{Cause: cause, Handlers: []c15Handler{{Kind: "watch"}, {Kind: "notify"}}, Stall: true})
+			}
 			for i, a := range c15Kinds {
 				k++
 				if k%nsh == sh {
@@ -309,7 +350,11 @@ func TestC15(t *testing.T) {
 		}
 	})
 	rec.Rapid(t, "rapid", func(rt *rapid.T) {
-		c := c15Case{Cause: rapid.SampledFrom(c15Causes).Draw(rt, "cause"), Empty: rapid.IntRange(0, 3).Draw(rt, "empty") == 0}
+		c := c15Case{Cause: rapid.SampledFrom(c15Causes).Draw(rt, "cause"), Empty: rapid.IntRange(0, 3).Draw(rt, "empty") == 0,
+			Partial: rapid.IntRange(0, 3).Draw(rt, "partial") == 0, Stall: rapid.IntRange(0, 5).Draw(rt, "stall") == 0}
+		if c.Stall && (c.Cause == "closer" || c.Empty || c.Partial) {
+			c.Stall = false // the closer / a probe would itself wait for the stalled link
+		}
 		n := rapid.IntRange(1, 6).Draw(rt, "nhandlers")
 		for i := 0; i < n; i++ {
 			c.Handlers = append(c.Handlers, c15Handler{Kind: rapid.SampledFrom(c15Kinds).Draw(rt, fmt.Sprintf("kind%d", i)),
